@@ -192,6 +192,18 @@ def corpus():
     return cs + [dict(kf) for _ in range(12)]
 
 
+def load_corpus():
+    """corpus/C20/*.json run first (the KF-C20c witness is repeated: it fails only for some iteration orders)"""
+    files = sorted(glob.glob(os.path.join(vlib.VERIF, "corpus", "C20", "*.json")))
+    if not files:
+        return corpus()
+    cs = []
+    for f in files:
+        c = json.load(open(f))
+        cs += [dict(c) for _ in range(12)] if os.path.basename(f).startswith("KF-") else [c]
+    return cs
+
+
 # ---------------------------------------------------------------------------------------------- evaluation
 
 def records_of(c, events):
@@ -218,7 +230,7 @@ def hist_terms(c, events):
         elif e["e"] == "fn":
             obs.append("(%d, EFn %d)" % (e["t"], o["k"]))
         elif e["e"] == "visit":
-            obs.append("(%d, EVisit %d (Some %d))" % (e["t"], e["k"], e["v"]))
+            obs.append("(%d, ECb %d %d)" % (e["t"], e["k"], e["v"]))
     recs = ["mkOp %d (%s) (%s) %d %d" % (r["t"], op_term(r["o"]), ret_term(r["o"], r["r"]), r["inv"], r["res"])
             for r in records_of(c, events)]
     ran = {e["t"] for e in events}   # a thread whose starting callback never fired (f not called: key present) did not run
@@ -307,14 +319,14 @@ def run(ctx):
     binp = vlib.go_build(ctx, "./cmd/c20")
     binrace = vlib.go_build(ctx, "./cmd/c20", out=ctx.wpath("bin_c20_race"), race=True)
     bins = (binp, binrace)
-    nseq, nhist, nrace = (500, 300, 40) if ctx.quick() else (10000, 5000, 500)
+    nseq, nhist, nrace = (1000, 600, 60) if ctx.quick() else (10000, 5000, 500)
     cases = []
     if ctx.replay:
         r = json.load(open(ctx.replay))
         cc = r.get("case", {}).get("case")
         cases = [dict(cc, id=0)] if cc else []
     if not cases:
-        cases = [dict(c, id=i) for i, c in enumerate(corpus())]
+        cases = [dict(c, id=i) for i, c in enumerate(load_corpus())]
         for _ in range(nseq):
             cases.append(gen_seq(ctx.rng, len(cases)))
         for _ in range(nhist):
